@@ -80,6 +80,7 @@ CHECKS["C05"] = dict(engine="system", level=("model_checking", "Sched.tla is a t
 HOOK_COMMITS.append("d1d8afab")
 HOOK_COMMITS.append("d2fc1936")
 HOOK_COMMITS.append("6afabbb7")
+HOOK_COMMITS.append("33191bfc")
 
 NOT_YET = "machinery for this property is not built yet in this revision (work in progress; see DESIGN.md section 9 for the plan)"
 
